@@ -27,9 +27,14 @@ Lemma d_term A B n x t : 1 < n -> 0 < var A B n t ->
 Proof.
   intros Hn Hv. unfold term.
   assert (Hv' := Hv). unfold var in Hv'.
+  assert (Hnum : 0 < (B + t ^ 2) * n - (A + t) ^ 2).
+  { assert (0 < (B + t ^ 2 - (A + t) ^ 2 / n)) as Hp.
+    { apply Rmult_lt_reg_r with (/ (n - 1)); [apply Rinv_0_lt_compat; lra|]. rewrite Rmult_0_l. exact Hv'. }
+    replace ((B + t ^ 2) * n - (A + t) ^ 2) with ((B + t ^ 2 - (A + t) ^ 2 / n) * n) by (field; lra).
+    apply Rmult_lt_0_compat; lra. }
   unfold var, mu. auto_derive.
-  - repeat split; try lra.
-  - unfold var, mu in *. field. repeat split; try lra.
+  - repeat split; try lra; try (apply Rgt_not_eq; exact Hv').
+  - unfold var, mu in *. field. repeat split; try lra; try (apply Rgt_not_eq; exact Hnum).
 Qed.
 
 (* whole cell: sum over measured individuals xs *)
